@@ -44,6 +44,7 @@ type traceLine struct {
 	OK         bool       `json:"ok"`
 	Out        []string   `json:"out"`
 	Panic      bool       `json:"panic"`
+	Ato        bool       `json:"ato"` // per-attempt timeouts were possible while the caller waited
 }
 
 func has(xs []string, x string) bool {
@@ -72,6 +73,14 @@ func fromModel(i int, m modelCase) Case {
 	}
 	if m.Ctx != "live" {
 		c.Ctx = m.Ctx
+	}
+	if m.UsedTO {
+		// an attempt times out while the caller still waits: needs the real clock. With a 3 s deadline
+		// and a 250 ms floor the getter gives a silent peer 1 s, then the next peer is tried.
+		c.AttemptTimeoutMs = 250
+		c.CtxAt = "wall:3000"
+		c.Ctx = "deadline"
+		return c
 	}
 	switch {
 	case len(m.Chain) > 1:
@@ -344,7 +353,8 @@ func toTrace(c Case, o Outcome, keys []string, ctxState string) *traceLine {
 		bstore = "edsstore"
 	}
 	return &traceLine{ID: c.ID, Type: c.Type, Rows: rows, Chain: c.Chain, StoreHas: c.StoreHas && has(c.Chain, "store"),
-		BlockStore: bstore, Items: items, Bs: bs, Ctx: ctxState, Timing: timing, OK: o.OK, Out: out, Panic: o.Panic != ""}
+		BlockStore: bstore, Items: items, Bs: bs, Ctx: ctxState, Timing: timing, OK: o.OK, Out: out, Panic: o.Panic != "",
+		Ato: c.AttemptTimeoutMs > 0}
 }
 
 func TestDriver(t *testing.T) {
@@ -363,9 +373,6 @@ func TestDriver(t *testing.T) {
 			t.Fatalf("cases: %v", err)
 		}
 		for i, m := range ms {
-			if m.UsedTO {
-				continue // needs a per-attempt timeout while the caller waits: not reachable without waiting a minute
-			}
 			cases = append(cases, fromModel(i, m))
 		}
 	}
